@@ -54,7 +54,7 @@ struct ClientSpec
 	std::vector<size_t> resp_end;     // cumulative ends in `expect`
 	std::vector<int> resp_req;        // request index of each expected reply
 	std::vector<int64_t> gate;        // per request: bytes of `expect` needed before it may be sent (-1 none)
-	enum Tail { None, Closed, R503 } tail = None;
+	enum Tail { None, Closed, R503, Either } tail = None; // Either: a 503 or a close (a port the proxy cannot make sense of)
 	bool tail_gated = false;
 	size_t need = 0;                  // bytes of `expect` that must have arrived at quiescence
 	bool multi_origin = false;
@@ -134,7 +134,9 @@ Decoded decode(Plan const& p)
 		}
 		OriginSpec const& os = d.origins[size_t(org)];
 		pm::Req r = o.op == "req" ? pm::make_good(id, j, org, o.b, int(o.c), os.view)
-			: pm::make_bad(id, j, org, int(uint64_t(o.b) % 6), o.c != 0, os.view);
+			// (an unusable port is only sent as a connection's first request: behind an established origin connection the proxy
+			// forwards whatever follows to that origin - the recorded multi-origin finding in another guise)
+			: pm::make_bad(id, j, org, c.reqs.empty() ? int(uint64_t(o.b) % 9) : int(uint64_t(o.b) % 9 % 6), o.c != 0, os.view);
 		d.by_id[id] = {j, int(c.reqs.size())};
 		c.reqs.push_back(r);
 	}
@@ -153,7 +155,7 @@ Decoded decode(Plan const& p)
 			// a malformed request behind one that earns a 503: closing without the 503 is as good
 			if (tail_seen && r.bad && c.tail == ClientSpec::R503) { c.tail = ClientSpec::Closed; c.tail_gated = true; }
 			if (tail_seen) continue;
-			if (r.bad) { c.tail = ClientSpec::Closed; c.tail_gated = r.wait; tail_seen = true; continue; }
+			if (r.bad) { c.tail = r.bad_kind >= 6 ? ClientSpec::Either : ClientSpec::Closed; c.tail_gated = r.wait; tail_seen = true; continue; }
 			orgs.insert(r.origin);
 			if (!d.origins[size_t(r.origin)].reachable) { c.tail = ClientSpec::R503; tail_seen = true; continue; }
 			c.expect += pm::response_for(r.id, r.resp_code);
@@ -167,7 +169,7 @@ Decoded decode(Plan const& p)
 		// an origin that hangs up while further requests are on their way is outside the
 		// statement: how much of its earlier replies still gets through is not judged
 		if (ca > 0 && !c.multi_origin && int(c.resp_end.size()) > ca) c.need = 0;
-		if (c.tail == ClientSpec::Closed && !c.tail_gated) c.need = 0;
+		if ((c.tail == ClientSpec::Closed || c.tail == ClientSpec::Either) && !c.tail_gated) c.need = 0;
 		if (c.every > 0)
 			for (size_t pos = size_t(c.every); pos < c.stream.size(); pos += size_t(c.every)) c.cuts[pos] = c.every_delay;
 	}
@@ -407,7 +409,7 @@ struct Proxy
 			if (s.tail == ClientSpec::None && off <= s.expect.size())
 				fail(c, "proxy.relay.extra", "received " + std::to_string(c.rx.size() - s.expect.size())
 					+ " bytes beyond everything the origin sent: \"" + show(c.rx.substr(s.expect.size(), 60)) + "\"");
-			else if (s.tail == ClientSpec::R503)
+			else if (s.tail == ClientSpec::R503 || s.tail == ClientSpec::Either)
 			{
 				int const m = pm::match_503(c.rx.substr(s.expect.size(), 16));
 				if (m < 0 && !c.seen_503)
@@ -838,6 +840,12 @@ struct Proxy
 						+ show(first_bad(s), 60) + "\") but the proxy never closed the client connection");
 				else ctx.hit("closed_for_bad_request");
 				break;
+			case ClientSpec::Either:
+				if (c.rx.size() < s.need) incomplete();
+				else if (!c.seen_503 && !c.eof)
+					fail(c, "proxy.oddport.ignored", "a request whose URI has no usable port (\"" + show(first_bad(s), 60) + "\") got neither a 503 nor a closed connection");
+				else ctx.hit(c.seen_503 ? "odd_port_answered_503" : "odd_port_closed");
+				break;
 			case ClientSpec::R503:
 				if (c.rx.size() < s.expect.size()) incomplete();
 				else if (!c.seen_503)
@@ -953,7 +961,14 @@ struct Proxy
 		int rounds = 0;
 		for (;;)
 		{
-			sim->run();
+			// whatever clients send, nothing but the harness's own errors leaves run()
+			try { sim->run(); }
+			catch (HarnessError const&) { throw; }
+			catch (std::exception const& e)
+			{
+				ctx.fail("proxy.exception", std::string("an exception left simulation::run(): ") + e.what());
+				break;
+			}
 			if (capped || sim->stopped()) break;
 			if (++rounds > 6 * k_max_clients + 8) throw HarnessError("client sequencing does not terminate");
 			ctx.tr.rec("quiet", {rounds}, {now_ns()});
@@ -1116,7 +1131,7 @@ struct ProxyEngine : Engine
 				if (k == bad_at)
 				{
 					Op b; b.op = "bad"; b.a = j;
-					b.b = int64_t(rng.below(6));
+					b.b = int64_t(rng.below(9));
 					b.c = rng.chance(0.6) ? 1 : 0;
 					p.ops.push_back(b);
 				}
